@@ -46,6 +46,10 @@ def k_grid(r2):
     thr = m // 2147
     vals = {1, 2, 3, 10, 12, 1000, thr - 1, thr, thr + 1, m, m + 1, 2 ** 64, 2 ** 63, 10 ** 30, 10 ** 12, 127, 255, 256, 15, 16, 30, 31, 65535, 65536,
             1000000, 1000001, 4294967, 4294968, 4294967295, 4294967296}
+    if r2 == "float":      # "R2 floating point" permits every ratio: also those beyond max(float)/2147 ~ 1.58e35 and beyond max(float) itself
+        vals |= {10 ** 35, 10 ** 36, 2 ** 117, 2 ** 127, 2 ** 128, 10 ** 38, 10 ** 39, 10 ** 45}
+    elif r2 == "double":
+        vals |= {10 ** 36, 10 ** 39, 10 ** 304, 10 ** 305, 2 ** 1013, 2 ** 1023, 2 ** 1024, 10 ** 308, 10 ** 309}
     return sorted(v for v in vals if v >= 1)
 
 
@@ -90,8 +94,13 @@ def body_for(c, idx):
     b.append('static_assert(std::is_convertible<Q1, Q2>::value == %s, "is_convertible");' % tf)
     b.append('static_assert(std::is_constructible<Q2, Q1>::value == %s, "is_constructible");' % tf)
     b.append('static_assert(std::is_assignable<Q2 &, Q1>::value == %s, "is_assignable");' % tf)
-    b.append("int auv_f(Q2); char auv_f(...);")
-    b.append('static_assert(sizeof(auv_f(std::declval<Q1>())) == (%s ? sizeof(int) : sizeof(char)), "overload resolution");' % tf)
+    # a ratio beyond the largest finite value of a floating R2 is permitted by the predicate, but PERFORMING that conversion is a (deliberate) compile error
+    # ("Value outside range of destination type"); g++ instantiates the constexpr constructor body even inside sizeof, so the selecting probe is only asked
+    # where the conversion itself can be performed
+    FMAX = {"float": (2 ** 24 - 1) * 2 ** 104, "double": (2 ** 53 - 1) * 2 ** 971}
+    if not (c["r2"] in FMAX and F(c["num"], c["den"]) > FMAX[c["r2"]]):
+        b.append("int auv_f(Q2); char auv_f(...);")
+        b.append('static_assert(sizeof(auv_f(std::declval<Q1>())) == (%s ? sizeof(int) : sizeof(char)), "overload resolution");' % tf)
     b.append('static_assert(auv_has_common<Q1, Q2>::value == %s, "std::common_type detection");' % ("false" if c["dim"] else "true"))
     if c["point"]:
         mp = "true" if model_M_point(c) else "false"
